@@ -209,6 +209,13 @@ def run_rates(w):
                  ExchangeRate(u, 1, e, O.dec(v))]
     pool += [r.inverted() for r in pool[:8]]
     pool += [ExchangeRate(e, 1, j, 2), ExchangeRate(j, 1, e, O.dec('D:0.5'))]
+    # tiny rates (held with more than six fractional digits) that agree in
+    # their first six decimals
+    for v in ('D:0.006126', 'D:0.00612557', 'D:0.0061255', 'D:0.00612549',
+              'D:0.006125'):
+        pool.append(ExchangeRate(j, 1, e, O.dec(v)))
+    pool.append(ExchangeRate(e, 1, j, O.dec('D:163.25')).inverted())
+    pool.append(ExchangeRate(j, 100, e, O.dec('D:0.612557')))
     for a in pool:
         for b in pool:
             if a == b:
